@@ -274,9 +274,41 @@ def c01c_roles(ctx):
             by = dict(zip(fields, ops))
             if not _is_self_id(b, by["from"]) or _touches_self_id(b, by["to"]):
                 ctx.fail(o, a, "%s builds an Edge whose `from` is not this node (or whose `to` is): dirty marks are keyed `from = caller, to = callee`" % fn)
+    # the same two roles outside Snapshot: dirty marks written by the propagation worker, and the dirty test of the repair
+    pt = ctx.touch(prog.coroutine_of("DirtyWorker::process_task"))
+    def who(b, op_):
+        out = set()
+        for x in df.origins_deep(prog, b, op_):
+            if x.kind == "call" and (x.callee() or "").endswith("get_backward_edges_unchecked"):
+                out.add("caller")       # an element of the callee's backward set
+            elif x.kind == "call" and re.search(r"DirtyTask::<C>::query_id$", x.callee() or ""):
+                out.add("callee")       # the node whose change is being propagated
+            else:
+                out.add("?")
+        return out
+    for s_ in pt.calls_to(r"database::Edge::new$"):
+        n += 1
+        if who(pt, s_.node["args"][0]) != {"caller"} or who(pt, s_.node["args"][1]) != {"callee"}:
+            ctx.fail(o, s_, "process_task buffers a dirty edge as Edge::new(%s, %s): `from` must be the caller taken from the backward set, `to` the propagated node" % (
+                sorted(who(pt, s_.node["args"][0])), sorted(who(pt, s_.node["args"][1]))))
+    for s_ in pt.calls_to(r"mark_dirty_forward_edge$"):
+        n += 1
+        if who(pt, s_.node["args"][1]) != {"caller"} or who(pt, s_.node["args"][2]) != {"callee"}:
+            ctx.fail(o, s_, "process_task marks the dirty edge with the roles swapped")
+    cc = ctx.touch(prog.coroutine_of("Snapshot::check_callee"))
+    parent = prog.body("Snapshot::check_callee")
+    idx = {nm: "_%d" % pl[0] for nm, pl in (parent.rec.get("dbg") or []) if isinstance(pl, list) and not pl[1]}
+    for s_ in cc.calls_to(r"Engine<C>>::is_edge_dirty$|Engine::<C>::is_edge_dirty$"):
+        n += 1
+        fo = {str(x.info) for x in df.origins_deep(prog, cc, s_.node["args"][1]) if x.kind == "param"}
+        to = {str(x.info) for x in df.origins_deep(prog, cc, s_.node["args"][2]) if x.kind == "param"}
+        if "query_id" not in idx or "callee" not in idx:
+            ctx.fail(o, s_, "anchor missing: the `query_id` / `callee` parameters of check_callee")
+        elif fo != {idx["query_id"]} or to != {idx["callee"]}:
+            ctx.fail(o, s_, "check_callee asks is_edge_dirty(from, to) with the roles swapped: the edge whose mark decides the repair is `this node -> callee`")
     o.sites = n
-    if n < 8:
-        ctx.fail(o, "(program)", "expected >= 8 backward-edge / Edge maintenance sites in set_computed, set_computed_input and clean_query, found %d" % n)
+    if n < 11:
+        ctx.fail(o, "(program)", "expected >= 11 edge-role sites (Snapshot maintenance, process_task, check_callee), found %d" % n)
 
 
 def c01d(ctx):
